@@ -1,8 +1,166 @@
 /-
-  C15 — property theorems (being added; see tools/agent_briefs/C15.md)
+  C15 — head marking: the NeGra heuristic (`negra_mark_heads`) and rule based marking
+  (`mark_heads_by_rules`) put exactly one head below every constituent, follow their documented
+  choice, and change nothing but the head flag.
 -/
 import TT.Spec.Transform
+import TT.Lemmas.Sort
+import TT.Lemmas.Nav
+import TT.Lemmas.WF
+import TT.Lemmas.Heads
 namespace TT.Props.C15
-open TT TT.Tree TT.Spec
+open TT TT.Tree TT.Spec TT.Lemmas.Heads
+
+/-! ## example trees -/
+
+/-- `(S (A/HD 3) (B/NK 1) (C/HD 2) (D/NK 4))`, children stored out of order: several HD, several NK.
+    Ordered children: B/NK(1) C/HD(2) A/HD(3) D/NK(4); the leftmost HD is C. -/
+def exHD : Tree :=
+  node { label := "S".toList } [
+    leaf 3 { label := "A".toList, edge := some "HD".toList },
+    leaf 1 { label := "B".toList, edge := some "NK".toList },
+    leaf 2 { label := "C".toList, edge := some "HD".toList },
+    leaf 4 { label := "D".toList, edge := some "NK".toList }]
+
+/-- several NK, no HD: the rightmost NK (token 3) is the head -/
+def exNK : Tree :=
+  node { label := "NP".toList } [
+    leaf 3 { label := "A".toList, edge := some "NK".toList },
+    leaf 1 { label := "B".toList, edge := some "NK".toList },
+    leaf 2 { label := "C".toList, edge := some "MO".toList },
+    leaf 4 { label := "D".toList, edge := some "MO".toList }]
+
+/-- neither HD nor NK: the leftmost child (token 1) is the head; nested below a root -/
+def exNone : Tree :=
+  node { label := "VROOT".toList } [
+    node { label := "X".toList, edge := some "MO".toList } [
+      leaf 2 { label := "A".toList, edge := some "MO".toList },
+      leaf 1 { label := "B".toList, edge := some "OA".toList }],
+    leaf 3 { label := "C".toList, edge := some "--".toList }]
+
+/-- `NP → ART NN PP`, stored out of order -/
+def exNP : Tree :=
+  node { label := "NP-SB".toList } [
+    node { label := "PP".toList } [leaf 3 { label := "APPR".toList }, leaf 4 { label := "NN".toList }],
+    leaf 2 { label := "NN".toList },
+    leaf 1 { label := "ART".toList }]
+
+/-- the token numbers of the children marked as head, per constituent in storage preorder -/
+def headTokens (t : Tree) : List (List Nat) :=
+  t.subtrees.filterMap fun s => match s with
+    | node _ ks => some ((ks.filter (fun c => c.fields.head == some true)).map leftmost)
+    | leaf _ _ => none
+
+example : WF exHD = true ∧ WF exNK = true ∧ WF exNone = true ∧ WF exNP = true := by decide
+
+/-! ## T1 / T2 NeGra heuristic -/
+
+theorem negra_oneHead (t : Tree) (hne : t.noEmpty = true) (hsd : sibDistinct t = true) :
+    oneHeadEach (negraMarkHeads t) = true := by
+  have _ := hne
+  rw [negraMarkHeads, negraMarkAux_eq]
+  exact oneHeadEach_markG negIdx negIdx_lt t hsd
+
+theorem negra_rule (t : Tree) (hne : t.noEmpty = true) (hsd : sibDistinct t = true) :
+    negraRuleOK (negraMarkHeads t) = true := by
+  have _ := hne; have _ := hsd
+  rw [negraMarkHeads, negraMarkAux_eq, negraRuleOK_eq, all_subtrees_setHead _ negraRuleAt_setHead]
+  exact all_subtrees_markG negIdx (fun _ => True) negraRuleAt (fun _ _ _ _ _ => trivial)
+    negraRuleAt_setHead (fun _ _ => rfl) (fun f ks _ => negraRuleAt_markG f ks) t trivial
+
+theorem negra_WF (t : Tree) (h : WF t = true) :
+    oneHeadEach (negraMarkHeads t) = true ∧ negraRuleOK (negraMarkHeads t) = true :=
+  ⟨negra_oneHead t (Lemmas.WF.WF_noEmpty t h) (Lemmas.WF.WF_sibDistinct t h),
+   negra_rule t (Lemmas.WF.WF_noEmpty t h) (Lemmas.WF.WF_sibDistinct t h)⟩
+
+/-- the rule itself needs no hypothesis at all (it only says that the wanted child is a head) -/
+theorem negra_rule_unconditional (t : Tree) : negraRuleOK (negraMarkHeads t) = true := by
+  rw [negraMarkHeads, negraMarkAux_eq, negraRuleOK_eq, all_subtrees_setHead _ negraRuleAt_setHead]
+  exact all_subtrees_markG negIdx (fun _ => True) negraRuleAt (fun _ _ _ _ _ => trivial)
+    negraRuleAt_setHead (fun _ _ => rfl) (fun f ks _ => negraRuleAt_markG f ks) t trivial
+
+/-- exactly one head per constituent only needs distinct leftmost tokens among siblings -/
+theorem negra_oneHead_of_sibDistinct (t : Tree) (hsd : sibDistinct t = true) :
+    oneHeadEach (negraMarkHeads t) = true := by
+  rw [negraMarkHeads, negraMarkAux_eq]
+  exact oneHeadEach_markG negIdx negIdx_lt t hsd
+
+example : exHD.noEmpty = true ∧ sibDistinct exHD = true := by decide
+example : headTokens (negraMarkHeads exHD) = [[2]] := by decide
+example : headTokens (negraMarkHeads exNK) = [[3]] := by decide
+example : headTokens (negraMarkHeads exNone) = [[1], [1]] := by decide
+example : oneHeadEach (negraMarkHeads exHD) = true ∧ negraRuleOK (negraMarkHeads exHD) = true := by decide
+example : oneHeadEach (negraMarkHeads exNK) = true ∧ negraRuleOK (negraMarkHeads exNK) = true := by decide
+example : oneHeadEach (negraMarkHeads exNone) = true ∧ negraRuleOK (negraMarkHeads exNone) = true := by
+  decide
+/-- `sibDistinct` cannot be dropped from `negra_oneHead`: two siblings with the same leftmost token
+    (token number 1 used twice) are both marked -/
+example : oneHeadEach (negraMarkHeads (node {} [leaf 1 {}, leaf 1 {}])) = false := by decide
+
+/-! ## marking changes nothing but the head flag -/
+
+theorem negra_leaves (t : Tree) : (negraMarkHeads t).leafNums = t.leafNums := by
+  rw [negraMarkHeads, negraMarkAux_eq, leafNums_setHead, leafNums_markG]
+
+theorem negra_consLabels (t : Tree) : consLabels (negraMarkHeads t) = consLabels t := by
+  rw [negraMarkHeads, negraMarkAux_eq, consLabels_setHead, consLabels_markG]
+
+theorem rules_leaves (rules : HeadRules) (t : Tree) :
+    (setHead false (rulesMarkAux rules t)).leafNums = t.leafNums := by
+  rw [rulesMarkAux_eq, leafNums_setHead, leafNums_markG]
+
+theorem rules_consLabels (rules : HeadRules) (t : Tree) :
+    consLabels (setHead false (rulesMarkAux rules t)) = consLabels t := by
+  rw [rulesMarkAux_eq, consLabels_setHead, consLabels_markG]
+
+example : (negraMarkHeads exNone).leafNums = [2, 1, 3] ∧
+    consLabels (negraMarkHeads exNone) = ["VROOT".toList, "X".toList] := by decide
+
+/-! ## T3 / T4 rule based, for an arbitrary rule table -/
+
+theorem rules_oneHead (rules : HeadRules) (t : Tree) (hne : t.noEmpty = true) (hsd : sibDistinct t = true) :
+    oneHeadEach (setHead false (rulesMarkAux rules t)) = true := by
+  have _ := hne
+  rw [rulesMarkAux_eq]
+  exact oneHeadEach_markG (ruleIdx rules) (ruleIdx_lt rules) t hsd
+
+theorem rules_unique_listed (rules : HeadRules) (t : Tree) (hne : t.noEmpty = true) (hsd : sibDistinct t = true) :
+    uniqueListedOK rules (setHead false (rulesMarkAux rules t)) = true := by
+  have _ := hne; have _ := hsd
+  rw [rulesMarkAux_eq, uniqueListedOK_eq, all_subtrees_setHead _ (uniqueAt_setHead rules)]
+  exact all_subtrees_markG (ruleIdx rules) (fun _ => True) (uniqueAt rules) (fun _ _ _ _ _ => trivial)
+    (uniqueAt_setHead rules) (fun _ _ => rfl) (fun f ks _ => uniqueAt_markG rules f ks) t trivial
+
+example : exNP.noEmpty = true ∧ sibDistinct exNP = true := by decide
+/-- `NP → ART NN PP` with the NeGra preset: NN (token 2) is the head of NP; PP → APPR NN: APPR (token 3) -/
+example : headTokens (setHead false (rulesMarkAux Gen.HEAD_RULES_NEGRA exNP)) = [[2], [3]] := by decide
+example : oneHeadEach (setHead false (rulesMarkAux Gen.HEAD_RULES_NEGRA exNP)) = true ∧
+    uniqueListedOK Gen.HEAD_RULES_NEGRA (setHead false (rulesMarkAux Gen.HEAD_RULES_NEGRA exNP)) = true := by
+  decide
+
+/-- the exception built into `uniqueListedOK` (an entry with an empty priority list placed before the entry
+    that lists the child) never applies to the two presets: an entry with an empty list is always the only
+    entry -/
+theorem presets_empty_entry_alone :
+    (∀ r ∈ Gen.HEAD_RULES_NEGRA, r.2.any (fun e => e.2.isEmpty) = true → r.2.length = 1) ∧
+    (∀ r ∈ Gen.HEAD_RULES_PTB, r.2.any (fun e => e.2.isEmpty) = true → r.2.length = 1) := by
+  decide
+
+/-! ## T5 rejection -/
+
+theorem rules_rejects (t : Tree) (rf : Str) :
+    markHeadsByRules (some Preset.other) none t = .error .valueError ∧
+    markHeadsByRules none none t = .error .valueError ∧
+    markHeadsByRules (some Preset.negra) (some rf) t = .error .valueError ∧
+    markHeadsByRules (some Preset.ptb) (some rf) t = .error .valueError :=
+  ⟨rfl, rfl, rfl, rfl⟩
+
+theorem rules_presets_ok (t : Tree) :
+    markHeadsByRules (some Preset.negra) none t = .ok (setHead false (rulesMarkAux Gen.HEAD_RULES_NEGRA t)) ∧
+    markHeadsByRules (some Preset.ptb) none t = .ok (setHead false (rulesMarkAux Gen.HEAD_RULES_PTB t)) :=
+  ⟨rfl, rfl⟩
+
+example : (match markHeadsByRules (some Preset.negra) none exNP with
+    | .ok r => headTokens r | .error _ => []) = [[2], [3]] := by decide
 
 end TT.Props.C15
